@@ -238,3 +238,101 @@ Proof.
   unfold recover. destruct shs as [|s0 rest]; [discriminate|]. destruct (forallb _ _); [|discriminate].
   destruct (_ <? _)%N; [discriminate|]. unfold interpolate. destruct (firstn _ _); discriminate.
 Qed.
+
+(* ---------- dealing ---------- *)
+Section Dealing.
+Variable St : Type.
+Variable next64 : St -> St * N.
+Notation draw_n := (draw_n St next64).
+Notation deal_polys := (deal_polys St next64).
+
+Lemma draw_n_len fuel : forall n s s' cs, draw_n fuel n s = (s', Some cs) -> length cs = n.
+Proof.
+  induction n as [|n IH]; intros s s' cs H; cbn [Shamir.draw_n] in H.
+  - injection H as _ <-. reflexivity.
+  - destruct (draw St next64 fuel s) as [s1 [c|]]; [|discriminate].
+    destruct (draw_n fuel n s1) as [s2 [cs'|]] eqn:E; [|discriminate].
+    injection H as _ <-. cbn [length]. f_equal. eapply IH. exact E.
+Qed.
+Lemma draw_n_app fuel : forall a b s s1 s2 ca cb,
+  draw_n fuel a s = (s1, Some ca) -> draw_n fuel b s1 = (s2, Some cb) ->
+  draw_n fuel (a + b) s = (s2, Some (ca ++ cb)).
+Proof.
+  induction a as [|a IH]; intros b s s1 s2 ca cb Ha Hb; cbn [Shamir.draw_n Nat.add] in *.
+  - injection Ha as <- <-. exact Hb.
+  - destruct (draw St next64 fuel s) as [s' [c|]]; [|discriminate].
+    destruct (draw_n fuel a s') as [s'' [cs'|]] eqn:E; [|discriminate].
+    injection Ha as <- <-. rewrite (IH b s' s'' s2 cs' cb E Hb). reflexivity.
+Qed.
+
+(* the polynomials dealt for the elements els: constant terms are the decoded elements, and the
+   other coefficients are, in order, the first (length els)*(t-1) draws of the source *)
+Theorem deal_polys_spec fuel (t : N) : forall els s s' polys,
+  deal_polys fuel t els s = (s', Ok (Some polys)) ->
+  decode_all els = Some (map (fun pl => last pl fzero) polys) /\
+  Forall (fun pl => length pl = S (N.to_nat (t - 1))) polys /\
+  length polys = length els /\
+  draw_n fuel (length els * N.to_nat (t - 1)) s = (s', Some (concat (map (@removelast fp) polys))).
+Proof.
+  induction els as [|c rest IH]; intros s s' polys H; cbn [Shamir.deal_polys] in H.
+  - injection H as <- <-. cbn. repeat split; constructor.
+  - destruct (from_repr c) as [e|] eqn:Ec; [|discriminate].
+    unfold random_polynomial in H.
+    destruct (draw_n fuel (N.to_nat (t - 1)) s) as [s1 [cs|]] eqn:Ed; [|discriminate].
+    destruct (deal_polys fuel t rest s1) as [s2 [[ps|]| |]] eqn:Er; try discriminate.
+    injection H as <- <-.
+    destruct (IH s1 s2 ps Er) as (Hdec & Hlen & Hcnt & Hdraw).
+    cbn [decode_all map]. rewrite Ec, Hdec, last_last.
+    repeat split.
+    + constructor; [|exact Hlen]. rewrite app_length, (draw_n_len _ _ _ _ _ Ed). cbn [length]. lia.
+    + cbn [length]. rewrite Hcnt. reflexivity.
+    + cbn [length concat map]. rewrite removelast_last.
+      apply (draw_n_app fuel (N.to_nat (t - 1)) (length rest * N.to_nat (t - 1)) s s1 s2 cs _ Ed Hdraw).
+Qed.
+
+Theorem deal_polys_refuses fuel (t : N) : forall els s,
+  decode_all els = None ->
+  snd (deal_polys fuel t els s) = Err \/ snd (deal_polys fuel t els s) = Ok None.
+Proof.
+  induction els as [|c rest IH]; intros s H; cbn [decode_all] in H; [discriminate|].
+  cbn [Shamir.deal_polys]. destruct (from_repr c) as [e|] eqn:Ec; [|left; reflexivity].
+  destruct (random_polynomial St next64 fuel e t s) as [s1 [poly|]]; [|right; reflexivity].
+  destruct (decode_all rest) as [es|] eqn:Er; [discriminate|].
+  destruct (IH s1 eq_refl) as [E|E]; destruct (deal_polys fuel t rest s1) as [s2 [[ps|]| |]];
+    cbn [snd] in *; try discriminate; auto.
+Qed.
+Theorem deal_polys_accepts fuel (t : N) : forall els s es,
+  decode_all els = Some es -> snd (deal_polys fuel t els s) <> Err /\ snd (deal_polys fuel t els s) <> Panic.
+Proof.
+  induction els as [|c rest IH]; intros s es H; cbn [decode_all] in H.
+  - cbn. split; discriminate.
+  - cbn [Shamir.deal_polys]. destruct (from_repr c) as [e|] eqn:Ec; [|discriminate].
+    destruct (decode_all rest) as [es'|] eqn:Er; [|discriminate].
+    destruct (random_polynomial St next64 fuel e t s) as [s1 [poly|]]; [|cbn; split; discriminate].
+    destruct (IH s1 es' eq_refl) as [H1 H2].
+    destruct (deal_polys fuel t rest s1) as [s2 [[ps|]| |]]; cbn [snd] in *; split; congruence.
+Qed.
+
+Theorem gen_point_nonzero fuel : forall n s s' x, gen_point St next64 fuel n s = (s', Some x) -> x <> fzero.
+Proof.
+  induction n as [|n IH]; intros s s' x H; cbn [gen_point] in H; [discriminate|].
+  destruct (draw St next64 fuel s) as [s1 [y|]]; [|discriminate].
+  destruct (feqb y fzero) eqn:E; [eapply IH; exact H|].
+  injection H as _ <-. apply feqb_neq. exact E.
+Qed.
+End Dealing.
+
+(* the iterator hands out the points 1, 2, 3, ... *)
+Lemma eval_iter_nth polys : forall n x i, (i < n)%nat ->
+  nth_error (eval_iter polys x n) i = Some (evaluate polys (fadd x (mkfp (Z.of_nat (S i))))).
+Proof.
+  induction n as [|n IH]; intros x i Hi; [lia|]. cbn [eval_iter].
+  destruct i as [|i]; cbn [nth_error].
+  - reflexivity.
+  - rewrite IH by lia. do 2 f_equal.
+    apply fp_eq. unfold fadd, fone. rewrite !val_mkfp.
+    rewrite Zplus_mod_idemp_l, Zplus_mod_idemp_r, Zplus_mod_idemp_r.
+    change (1 mod p)%Z with 1%Z. f_equal. lia.
+Qed.
+Lemma small_nonzero i : (0 < i < p)%Z -> mkfp i <> fzero.
+Proof. intros H E. apply (f_equal val) in E. rewrite mkfp_small in E by lia. vm_compute in E. lia. Qed.
